@@ -4,6 +4,7 @@ import (
 	"fmt"
 	"math/big"
 	"math/rand"
+	"sort"
 	"time"
 
 	sdkmath "cosmossdk.io/math"
@@ -539,7 +540,13 @@ func (w *World) RunLedger(o LedgerOpts) {
 			}
 			s := w.pickStaker(nst.Lz, false)
 			// prefer a staker that has pending NST undelegations (the decrease then walks through them)
-			for _, rec := range l.Undel {
+			var undelKeys []string
+			for k := range l.Undel {
+				undelKeys = append(undelKeys, k)
+			}
+			sort.Strings(undelKeys) // the PRNG is consulted inside the loop: the order must not be the map's
+			for _, uk := range undelKeys {
+				rec := l.Undel[uk]
 				if rec.AssetID == nst.ID && r.Intn(2) == 0 {
 					for _, cand := range w.Stakers {
 						if cand.ID == rec.StakerID {
